@@ -230,6 +230,45 @@ def encodeReq (v : Nat) (tracing : Bool) (stream : Int) (now : Int) (g : GReq) :
     if hs + full.length > maxFrameSize then .error .frameTooBig
     else .ok (wHeader v (headerFlags v tracing g) stream (opcode g) full.length ++ full)
 
+/-! ## with a compressor (newFramer(compressor, v), writeHeader's `f.flags &^ flagCompress` in
+writeStartupFrame / writeOptionsFrame, framer.finish) -/
+
+/-- STARTUP and OPTIONS are written with the compress flag cleared -/
+def compressible : GReq → Bool
+  | .startup _ => false
+  | .options => false
+  | _ => true
+
+/-- newFramer(comp, v); [trace()]; frame.buildFrame(framer, stream); framer.buf — `comp` is the
+    compressor's Encode (taken as total: an Encode error is C18's). The size check of finish() comes
+    BEFORE compression, on the uncompressed frame; the length written is that of the compressed body. -/
+def encodeReqC (comp : Option (Bytes → Bytes)) (v : Nat) (tracing : Bool) (stream : Int) (now : Int) (g : GReq) :
+    Except Err Bytes :=
+  let pl := payloadOf g
+  if pl.length > 0 ∧ v < 4 then .error .panicPayload else
+  match wBody v now g with
+  | .error e => .error e
+  | .ok body =>
+    let full := wPayload pl ++ body
+    let hs := if v > 2 then 9 else 8
+    if hs + full.length > maxFrameSize then .error .frameTooBig
+    else
+      match comp with
+      | some enc =>
+        if compressible g then
+          .ok (wHeader v (headerFlags v tracing g + 1) stream (opcode g) (enc full).length ++ enc full)
+        else .ok (wHeader v (headerFlags v tracing g) stream (opcode g) full.length ++ full)
+      | none => .ok (wHeader v (headerFlags v tracing g) stream (opcode g) full.length ++ full)
+
+/-- the toy "compression algorithm" the harness configures (harness/cmd/c03: toyComp): a marker byte, then
+    every byte xor 0x5A — not the identity, one byte longer, so that what is handed to Encode, where its
+    output is put and which length is written are all observable. The real algorithms are C18. -/
+def toyEnc (b : Bytes) : Bytes := 0xC5 :: b.map (· ^^^ 0x5A)
+
+def toyDec : Bytes → Option Bytes
+  | 0xC5 :: r => some (r.map (· ^^^ 0x5A))
+  | _ => none
+
 /-! ## what the Go struct asks for -/
 
 def askVal (x : GVal) : NVal :=
